@@ -32,7 +32,9 @@ for _ph in PHASES_ALL:
 def _settings(it, **fields):
     from pyvc.values import VObj
 
-    return VObj(it.resolve_class("spec:Settings"), dict(fields))
+    fields = {k: v for k, v in fields.items() if k != "__dict__"}
+    # E2 (installed Hypothesis 6.168): a settings object keeps its values under PRIVATE attribute names; `settings.__dict__` is therefore not a map of public setting names
+    return VObj(it.resolve_class("spec:Settings"), {**fields, "__dict__": {"_" + k: v for k, v in fields.items()}})
 
 
 def _default_settings(it):
